@@ -323,9 +323,66 @@ class BuiltinMixin(object):
                 res.append((st1, mk_bool(False)))
         return res
 
+    def _empty(self, kind):
+        hints = getattr(self.contract, "empties", None) if self.contract else None
+        if hints and kind in hints:
+            ty = hints[kind]
+            return {"set": lambda: core.sempty(ty.elem), "list": lambda: core.lempty(ty.elem),
+                    "dict": lambda: core.mempty(ty.k, ty.v)}[kind]()
+        return V({"set": EMPTY_SET, "list": EMPTY_LIST, "dict": EMPTY_DICT}[kind], None)
+
+    def bi__reduce(self, e, st):
+        """functools.reduce(set.union, <collection of sets>[, initial]) : the union of the sets."""
+        if not (isinstance(e.args[0], ast.Attribute) and ast.unparse(e.args[0]) == "set.union"):
+            raise OutsideSubset("reduce with a function other than set.union")
+        res = []
+        a1 = e.args[1]
+        if isinstance(a1, ast.Call) and isinstance(a1.func, ast.Attribute) and a1.func.attr == "values" and not a1.args:
+            # union of the values of a dict of sets: characterised per key (no positions)
+            for st1, m in self.ev(a1.func.value, st):
+                if not (isinstance(m.ty, Map) and isinstance(m.ty.v, Set)):
+                    raise OutsideSubset("reduce(set.union, X.values()) on %r" % (m.ty,))
+                if len(e.args) < 3:
+                    ok, bad = self.fork(st1, z3.Not(core.sisempty(core.mdom(m))), e.lineno, "reduce-empty")
+                    if bad is not None:
+                        self.do_raise(bad, "TypeError")
+                    if ok is None:
+                        continue
+                    st1 = ok
+                res.append((st1, core.svirt(m.ty.v.elem, lambda x, m=m: core.exists_ty(
+                    m.ty.k, lambda k: z3.And(core.smem_t(core.mdom(m), k), z3.Select(z3.Select(core.mval(m), k), x))))))
+            return res
+        for st1, seq in self.ev_iter(e.args[1], st):
+            if seq.ty is STATIC:
+                raise OutsideSubset("reduce over static sequence")
+            ety = seq.ty.elem.elem
+            if len(e.args) < 3:
+                ok, bad = self.fork(st1, core.llen(seq) > 0, e.lineno, "reduce-empty")
+                if bad is not None:
+                    self.do_raise(bad, "TypeError")
+                if ok is None:
+                    continue
+                st1 = ok
+            res.append((st1, core.svirt(ety, lambda x, seq=seq: core.exists_int(0, core.llen(seq), lambda j: z3.Select(z3.Select(core.larr(seq), j), x)))))
+        return res
+
+    bi_reduce = bi__reduce
+
+    def sf_store_all(self, e, st):
+        """store_all(m, S, v): m with every key of S mapped to v"""
+        m, s, v = [self.ev1(x, st) for x in e.args]
+        v = self.adapt(v, m.ty.v)
+        r = fresh(m.ty, "storeall")
+        self.spec_defs.append(z3.And(
+            core.forall_ty(m.ty.k, lambda k: core.smem_t(core.mdom(r), k) == z3.Or(core.smem_t(core.mdom(m), k), core.smem_t(s, k))),
+            core.forall_ty(m.ty.k, lambda k: z3.Select(core.mval(r), k) == z3.If(core.smem_t(s, k), v.t, z3.Select(core.mval(m), k)))))
+        return r
+
     def bi_set(self, e, st):
         if not e.args:
-            return [(st, V(EMPTY_SET, None))]
+            return [(st, self._empty("set"))]
+        if isinstance(e.args[0], (ast.GeneratorExp, ast.ListComp)):
+            return self.comprehension(e.args[0], st, "set")
         res = []
         for st1, (a,) in self._args1(e, st):
             if a.ty in (EMPTY_LIST, EMPTY_SET, EMPTY_DICT):
@@ -432,7 +489,7 @@ class BuiltinMixin(object):
                             self.no_defs_under_binder(n0)
                         finally:
                             self.spec_depth -= 1
-                        parts.append(z3.Implies(z3.And(conds), body) if universal else z3.And(conds + [body]))
+                        parts.append((z3.Implies(z3.And(conds), body) if conds else body) if universal else z3.And(conds + [body]))
                     res.append((st1, V(BOOL, (z3.And if universal else z3.Or)(parts or [z3.BoolVal(universal)]))))
                     continue
 
@@ -446,7 +503,7 @@ class BuiltinMixin(object):
                         self.no_defs_under_binder(n0)
                     finally:
                         self.spec_depth -= 1
-                    return z3.Implies(z3.And(conds), body) if universal else z3.And(conds + [body])
+                    return (z3.Implies(z3.And(conds), body) if conds else body) if universal else z3.And(conds + [body])
                 Q = core.forall_int if universal else core.exists_int
                 res.append((st1, V(BOOL, Q(0, core.llen(seq), at))))
             return res
